@@ -472,6 +472,14 @@ func checkC13(c *h.Check) {
 	for order := 0; order < 3; order++ {
 		add(fmt.Sprintf("C13/values-from-two-packages/order=%d", order), c13Mixed(order), false, "", false)
 	}
+	// value providers declared by one var specification with several names and parallel initialisers
+	for home := 0; home < 2; home++ {
+		for n := 2; n <= 3; n++ {
+			for form := 0; form < 2; form++ {
+				add(fmt.Sprintf("C13/multi-name-spec/home=%d/n=%d/form=%d", home, n, form), c13MultiSpec(home == 1, n, form), false, "", false)
+			}
+		}
+	}
 	_ = thorough
 	results := c.JudgeAll(cases)
 	acc, rej := 0, 0
@@ -493,7 +501,7 @@ func checkC13(c *h.Check) {
 	c.Coverage["accepted_and_executed"] = acc
 	c.Coverage["rejected"] = rej
 	c.Coverage["classes"] = kinds.summary()
-	c.Coverage["rule"] = fmt.Sprintf("%d base expression forms (literals of every basic kind, composite literals of struct/array/[...]/slice/map/pointer/anonymous struct, conversions to named/func/pointer types, unary and binary operators, selectors of variables/fields/method values, indexing, slicing incl. 3-index, dereference, type assertion, function literals; calls of functions, methods, func variables, variables of named func type, generic instantiations, function literals, every builtin, receive; interface-typed values; unexported variables, types and fields) x %d parents (whole, parenthesised, slice element, struct field, map value, indexed literal, binary/unary operand, address of a literal) x home package {injector's, another}; wire.InterfaceValue with implementing / non-implementing / calling values; identical expression text in two packages used by two injectors. Must-reject classes must be rejected with nothing written; accepted expressions are compiled and run: both calls and a second injector sharing the expression must return a value DeepEqual to the same expression evaluated in its home package, and pointer-like results must be the very same pointer. Distinct = distinct rendered source.", len(bases), len(parents))
+	c.Coverage["rule"] = fmt.Sprintf("%d base expression forms (literals of every basic kind, composite literals of struct/array/[...]/slice/map/pointer/anonymous struct, conversions to named/func/pointer types, unary and binary operators, selectors of variables/fields/method values, indexing, slicing incl. 3-index, dereference, type assertion, function literals; calls of functions, methods, func variables, variables of named func type, generic instantiations, function literals, every builtin, receive; interface-typed values; unexported variables, types and fields) x %d parents (whole, parenthesised, slice element, struct field, map value, indexed literal, binary/unary operand, address of a literal) x home package {injector's, another}; wire.InterfaceValue with implementing / non-implementing / calling values; identical expression text in two packages used by two injectors; value providers declared by one var specification with several names (one injector per name). Must-reject classes must be rejected with nothing written; accepted expressions are compiled and run: both calls and a second injector sharing the expression must return a value DeepEqual to the same expression evaluated in its home package, and pointer-like results must be the very same pointer. Distinct = distinct rendered source.", len(bases), len(parents))
 	if len(cases) > 0 && len(results) == len(cases) {
 		i := len(cases) / 2
 		c.Samples = append(c.Samples, map[string]interface{}{"case": cases[i].ID, "files": cases[i].Files, "trace": results[i].Trace})
@@ -573,5 +581,41 @@ func VerifDrive() {
 	vt.Note("eq " + b2s(a.M == liba.Default) + b2s(a.P == Port(Base+80)) + b2s(a == b))
 }
 `
+	return files
+}
+
+// c13MultiSpec: `var V0, V1[, V2] = wire.Value(e0), wire.Value(e1)[, ...]` (form 0) or the same names holding
+// one-element sets (form 1), in the injector's package or in another one; one injector per name, each of which
+// must return the value of its own expression.
+func c13MultiSpec(homeLib bool, n, form int) map[string]string {
+	files := map[string]string{}
+	pkg, q, imp := "p", "", ""
+	if homeLib {
+		pkg, q, imp = "lib", "lib.", "\t\"{{ROOT}}/lib\"\n"
+	}
+	var names, inits, exps, injs, notes []string
+	for i := 0; i < n; i++ {
+		e := fmt.Sprintf("Cfg{Name: \"v%d\", Port: Base + %d}", i, i)
+		v := "wire.Value(" + e + ")"
+		if form == 1 {
+			v = "wire.NewSet(" + v + ")"
+		}
+		names = append(names, fmt.Sprintf("V%d", i))
+		inits = append(inits, v)
+		exps = append(exps, e)
+		injs = append(injs, fmt.Sprintf("func Init%d() %sCfg {\n\tpanic(wire.Build(%sV%d))\n}\n", i, q, q, i))
+		notes = append(notes, fmt.Sprintf("verifEq(Init%d(), %sExpected[%d])", i, q, i))
+	}
+	if n == 2 {
+		notes = append(notes, fmt.Sprintf("verifEq(Init1(), %sExpected[1])", q))
+	}
+	home := "package " + pkg + "\n\nimport \"github.com/google/wire\"\n\ntype Cfg struct {\n\tName string\n\tPort int\n}\n\nvar Base = 5000\n\nvar " + strings.Join(names, ", ") + " = " + strings.Join(inits, ", ") + "\n\nvar Expected = []Cfg{" + strings.Join(exps, ", ") + "}\n"
+	if homeLib {
+		files["lib/lib.go"] = home
+	} else {
+		files["home.go"] = home
+	}
+	files["wire.go"] = "//go:build wireinject\n// +build wireinject\n\npackage p\n\nimport (\n\t\"github.com/google/wire\"\n" + imp + ")\n\n" + strings.Join(injs, "\n")
+	files["driver.go"] = "package p\n\nimport (\n\t\"reflect\"\n\n\t\"example.com/m/vt\"\n" + imp + ")\n\nfunc verifEq(a, b interface{}) string {\n\tif reflect.DeepEqual(a, b) {\n\t\treturn \"1\"\n\t}\n\treturn \"0\"\n}\n\nfunc VerifDrive() {\n\tvt.Case(\"{{CASE}}\")\n\tvt.Note(\"eq \" + " + strings.Join(notes, " + ") + ")\n}\n"
 	return files
 }
